@@ -218,7 +218,7 @@ class LexInfZ3(Inference):
                 raise TimeoutError
             m = opt.model()
             xi_i: frozenset[Conditional_z3] = frozenset(
-                [c for c in part if is_true(m.eval(c.make_A_then_not_B()))]
+                [c for c in part if is_true(m.eval(c.make_A_then_not_B(), model_completion=True))]
             )
             xi_i_set.add(xi_i)
             if xi_i == frozenset[Conditional_z3]():
